@@ -486,10 +486,18 @@ func writeEvidence(verif, prop, tier string, seed int, cr *checkRun, knownHit []
 	meta := loadPropMeta(verif)[prop]
 	assumptions := append([]string{
 		"the VC generator gvc itself (unverified; guarded by the must-fail corpus, solver agreement and vacuity covers)",
-		"machine integers are modelled exactly (wrap-around per Go type), not as mathematical integers; slice and string lengths are bounded by MaxInt64",
+		"machine integers are modelled exactly (wrap-around per Go type), not as mathematical integers; slices hold at most 2^48 elements (address space), string lengths are bounded by MaxInt64",
+		"solver back ends: z3 5.1.0 (constants and macro renderings) and cvc5 1.0; an obligation counts only on unsat; answers for byte-identical queries may come from the local answer cache (back end .../cached)",
 		"extraction drops: go statements and timer closures are not followed; recover blocks ignored; select is a nondeterministic choice; channel operations do not block; sync locks have no scheduling semantics",
 	}, meta.assumptions...)
 	assumptions = append(assumptions, trusted...)
+	if cr.eng != nil {
+		for _, ti := range cr.eng.trustedImpls {
+			if hasProp(ti.props, prop) {
+				assumptions = append(assumptions, ti.text)
+			}
+		}
+	}
 	ev := map[string]interface{}{
 		"property_id": prop,
 		"tier":        tier,
